@@ -174,11 +174,67 @@ async def settle(children, problems):
             problems.append(f"a task of the program failed with {e!r}: entering or leaving one of its own blocks raised")
 
 
+def tasks_made_by_helpers():
+    """The helper decorators start tasks of their own inside the caller's scope (`timeout` runs the function in a task, the
+    async cache runs the shared invocation in one): what such a task enters is never visible to the caller - neither while
+    the function is suspended inside its own update when the deadline fires, nor after it has unwound - and the caller's
+    later updates are not undone by it."""
+    from haiway import timeout, cache
+    out = []
+
+    async def prog():
+        never = asyncio.Event()
+
+        @timeout(0.02)
+        async def timed():
+            with ctx.updated(A(v=77)):
+                await never.wait()
+
+        @cache
+        async def cached(key):
+            with ctx.updated(A(v=88)):
+                await asyncio.sleep(0)
+                await asyncio.sleep(0)
+                return ctx.state(A).v
+        async with ctx.scope("root", A(v=1)):
+            try:
+                await timed()
+                out.append("the timed function returned although it waits for ever")
+            except TimeoutError:
+                pass
+            seen = [ctx.state(A).v]                      # at once, before the cancelled function has unwound
+            with ctx.updated(A(v=2)):
+                for _ in range(5):
+                    await asyncio.sleep(0)
+                seen.append(ctx.state(A).v)
+            seen.append(ctx.state(A).v)
+            if seen != [1, 2, 1]:
+                out.append(f"caller of a timed-out function that sat in its own ctx.updated(A(v=77)): the caller read A.v = {seen} "
+                           "(right after the timeout, inside its own later update A(v=2), after it); expected [1, 2, 1]")
+            t = asyncio.ensure_future(cached("k"))
+            await asyncio.sleep(0)
+            during = ctx.state(A).v
+            inner = await t
+            after = ctx.state(A).v
+            if (during, inner, after) != (1, 88, 1):
+                out.append(f"caller of a cached coroutine that enters ctx.updated(A(v=88)): caller saw {during} during, the function "
+                           f"saw {inner}, caller saw {after} after; expected (1, 88, 1)")
+    try:
+        asyncio.run(asyncio.wait_for(prog(), 10))
+    except BaseException as e:  # noqa
+        out.append(f"helper-made tasks program ended with {e!r}")
+    return out
+
+
 def main():
     sys.stdin.read()
     seed = int(os.environ.get("VERIF_SEED", "0") or 0)
-    n = 0
-    p = None
+    n = 1
+    hp = tasks_made_by_helpers()
+    p = hp[0] if hp else None
+    if p:
+        print(json.dumps(dict(reproduced=True, detail=dict(problem=p, scenario="helper-made tasks"), cases_tried=n), default=str))
+        return
     for k in range(int(os.environ.get("C03_PROGRAMS", "120"))):
         n += 1
         rng = random.Random(seed * 100003 + k)
